@@ -215,7 +215,7 @@ def main(tier):
                 # (class name only) F13 again: with that option on, the end segments of connectors with free endpoints are nudged like interior
                 # ones -- the endpoints of at least two connectors of this scene were moved, and the segments carrying them end up on one line
                 key = 'nudging:option-nudgeOrthogonalSegmentsConnectedToShapes:overlap-between-connectors-whose-endpoints-were-moved'
-            if t.startswith('overlap-with-end-segment-in-wide-channel'):
+            if t.startswith('overlap-with-end-segment-in-wide-channel') and key == 'nudge:' + t:      # (not already filed under F35)
                 # (class name only) an interior segment lies on another connector's first/last segment although the raw route of its connector
                 # had no segment on that line there: nudging put it there
                 def segs(rt):
@@ -243,7 +243,11 @@ def main(tier):
                                             return True
                     return False
                 if created():
-                    key = 'nudge:overlap-with-end-segment-in-wide-channel:the-raw-route-had-no-segment-on-that-line'
+                    # the class is too close to what a faulty nudger does (seeded change c10 fell into it), so the known cases are listed by
+                    # their exact input: the fingerprint ends in a hash of the scene
+                    import hashlib
+                    h = hashlib.sha1(json.dumps([x['opts'], x['P'], x['buf'], x['d'], x['rects'], [[c['src'], c['dst'], c.get('cps', [])] for c in x['conns']]], sort_keys=True).encode()).hexdigest()[:10]
+                    key = 'nudge:overlap-with-end-segment-in-wide-channel:the-raw-route-had-no-segment-on-that-line:scene-' + h
             if t == 'exception':
                 m = re.search(r'expression: (.*)', x['what'])
                 key = 'assertion:' + re.sub(r'[^A-Za-z0-9_>!=<-]+', '', m.group(1))[:60] if m else (RC.crash_key(x['what']) if x['what'].startswith('process died') else 'exception')
